@@ -329,7 +329,7 @@ Inductive event :=
 | EFlvSub (s n : N) (deny : bool)      (* http-flv request *)
 | ETsSub (s n : N) (deny : bool)       (* http-ts request *)
 | ECustPub (s n : N)                   (* ILalServer.AddCustomizePubSession *)
-| EPsPub (s n : N)                     (* start_rtp_pub *)
+| EPsPub (s n : N) (listen : bool)     (* start_rtp_pub; listen: PubSession.Listen succeeds (false: the port cannot be bound) *)
 | EGone (n : N)                        (* the connection ends / DelCustomizePubSession *)
 | EKick (s : N) (t : ktarget)          (* kick_session *)
 | EStartPull (s : N) (retry autostop : Z) (rtmp : bool)   (* start_relay_pull *)
@@ -351,6 +351,7 @@ Inductive result :=
 Definition code_group_not_found : N := 1001.
 Definition code_session_not_found : N := 1003.
 Definition code_start_pull_fail : N := 2001.
+Definition code_listen_fail : N := 2002.
 Definition code_start_rtp_pub_fail : N := 2003.
 
 (* ---- helpers on the state ---------------------------------------------------------- *)
@@ -592,11 +593,16 @@ Definition step (fx : fixes) (cf : config) (st : state) (e : event) : state * re
       let '(st1, ok, g) := admit_pub cf st PsCust s n true in
       if ok then (add_sess st1 (admitted_sess n KCustPub s (Some (g_id g))), RAcc, [])
       else (add_sess st1 (refused_sess n KCustPub s), RRef, [])
-  | EPsPub s n =>
+  | EPsPub s n listen =>
     if negb (fresh st n) then (st, RBad, [])
     else
       let '(st1, ok, g) := admit_pub cf st PsPs s n (fx_f09 fx) in
-      if ok then (add_sess st1 (admitted_sess n KPsPub s (Some (g_id g))), RCode 0 RsNone None, [])
+      if ok then
+        if listen then (add_sess st1 (admitted_sess n KPsPub s (Some (g_id g))), RCode 0 RsNone None, [])
+        else
+          (* StartRtpPub registered the session and ran addIn, then Listen failed: delPsPubSession takes it out again at
+             once - what is left is the group (getOrCreateGroup), as after a refusal; no pipeline is ever seen *)
+          (add_sess (fst (get_or_create cf st s)) (refused_sess n KPsPub s), RCode code_listen_fail RsNone None, [])
       else (add_sess st1 (refused_sess n KPsPub s), RCode code_start_rtp_pub_fail RsDup None, [])
   | ERtmpSub s n deny =>
     if negb (fresh st n) then (st, RBad, [])
